@@ -190,6 +190,15 @@ def siblings(r, F):
             for o in ons:
                 atoms = tables.variant_atoms(f, EVENT, "Evict")
                 ok = ok and not tables.guarded_by_eq(f, atoms, o.idx)
+        # ... and the pipe gets EVERY evicted record: from the edge on which `event == Evict` holds, every path to the next element passes Pipe::send
+        atoms = tables.variant_atoms(f, EVENT, "Evict")
+        eq_targets = [t for a in atoms for (_, t) in a.eq_edges]
+        okall = bool(eq_targets) and bool(snd)
+        for t0 in eq_targets:
+            reach = f.reachable([t0], avoid=[c.idx for c in snd])
+            okall = okall and not (set(f.returns() + [n.idx for n in nxt]) & reach)
+        r.require(okall, f, "every evicted record is offered to the pipe", "no further condition between `piped && event == Evict` and Pipe::send",
+                  "a record dequeued with Event::Evict can skip Pipe::send (an extra condition on the piping path): it leaves memory by eviction without being offered to the disk tier", ln=f.lo)
         r.require(ok, f, "drain loop: listener for each, pipe for evicted", "listener notified for every dequeued record, pipe only under the Evict test, both inside the drain loop",
                   "this garbage-draining site does not notify the listener for every record / pipe inside the loop like its siblings", ln=f.lo)
         for c in ons + snd:
